@@ -20,7 +20,7 @@ RULE = (
     "and all compared outputs finite. Distinct = SHA-1 of the case."
 )
 BUDGET = {"quick": {"examples": 250, "shards": 4}, "thorough": {"fuzz_runs": 3000, "examples": 2500, "shards": 16}}
-EXPECTED_LABELS = ("engine:SX", "engine:MX", "compact:-1", "compact:0", "compact:1", "compact:2", "compact:3", "more_out", "sympars", "opts",
+EXPECTED_LABELS = ("int-twin", "same-names", "engine:SX", "engine:MX", "compact:-1", "compact:0", "compact:1", "compact:2", "compact:3", "more_out", "sympars", "opts",
                    "merge", "bifurcation", "interior-ramp", "origin:main", "vsl:empty", "vsl:some")
 ASSUMPTIONS = ["outputs mapped through lib/layout.py", "tolerance 1e-9 x scale (|a|+|b| of the compared entries and of the inputs of the element)"]
 
@@ -43,6 +43,10 @@ def sympar_choice(draw, sp):
     n = draw(st.integers(1, min(6, len(cands))))
     idx = draw(st.lists(st.integers(0, len(cands) - 1), min_size=n, max_size=n, unique=True))
     chosen = [cands[i] for i in idx]
+    if len(sp["links"]) >= 2 and draw(st.integers(0, 3)) == 0:
+        # one vector-valued symbol declared once, its k-th entry given to the k-th link
+        pname = draw(st.sampled_from(["rho_crit", "v_free", "a"]))
+        chosen = [c for c in chosen if c[1] != pname] + [["$vector", pname]]
     return list(draw(st.permutations(chosen)))
 
 
@@ -60,6 +64,8 @@ def cases(draw):
         "more_out": draw(st.booleans()),
         "opts": opts,
         "sympars": sympars,
+        "int_twin": draw(st.integers(0, 3)) == 0,
+        "same_names": draw(st.integers(0, 3)) == 0,
     }
 
 
@@ -75,6 +81,15 @@ def make_symbolic(sp, sym, sympars):
     origins = {o["id"]: o for o in sp["origins"]}
     used_keys = set()
     for k, (eid, pname) in enumerate(sympars or []):
+        if eid == "$vector":
+            key = pname if pname not in used_keys else f"{pname}_vec"
+            used_keys.add(pname)
+            vec = XX.sym(key, len(sp["links"]), 1)
+            for j, l in enumerate(sp["links"]):
+                overrides.setdefault(l["id"], {})[pname] = vec[j]
+            values[key] = [l[pname] for l in sp["links"]]
+            parameters[key] = vec
+            continue
         if eid == "$model":
             # the model parameter's own name (as users and the repository's tests do) or another key
             key = pname if k % 2 == 0 else f"p{k}_{pname}"
@@ -95,12 +110,35 @@ def make_symbolic(sp, sym, sympars):
 def compile_case(case):
     sp = case["spec"]
     overrides, par_over, parameters, values = make_symbolic(sp, case["sym"], case.get("sympars"))
-    params = [(k, 1) for k in parameters]  # declared order, taken before the library sees the dictionary
+    params = [(k, v.numel()) for k, v in parameters.items()]  # declared order, taken before the library sees the dictionary
+    init = None
+    if case.get("same_names"):
+        # the caller supplies its own symbols for every variable, all carrying the same name
+        byel = {}
+        for (i, var), n in cas.var_sizes(sp).items():
+            byel.setdefault(i, []).append(var)
+        init = [["$same-names", []]] + [[i, vs] for i, vs in byel.items() if _has_vars(sp, i, vs)]
+        init = [[i, [v for v in vs if _var_ok(sp, i, v)]] for i, vs in init]
+        init = [e for e in init if e[0] == "$same-names" or e[1]]
     F, net, els = cas.compile_net(
-        sp, case["sym"], case["compact"], case["more_out"], case["opts"], overrides, par_over, parameters or None
+        sp, case["sym"], case["compact"], case["more_out"], case["opts"], overrides, par_over, parameters or None, None, init
     )
     lay = layout.Layout(sp, layout.element_order(net, els))
     return F, lay, params, values
+
+
+def _var_ok(sp, i, var):
+    if i.startswith("L"):
+        return True
+    if i.startswith("O"):
+        k = next(o for o in sp["origins"] if o["id"] == i)["kind"]
+        return var in {"main": ("w", "d", "v_ctrl"), "ramp_in": ("w", "d", "r"), "ramp_out": ("w", "d", "r"),
+                       "simp_lim": ("w", "d", "q"), "simp_unl": ("w", "d", "q")}.get(k, ())
+    return next(x for x in sp["dests"] if x["id"] == i)["kind"] == "cong"
+
+
+def _has_vars(sp, i, vs):
+    return any(_var_ok(sp, i, v) for v in vs)
 
 
 def call(F, lay, compact, state, params, values, more_out):
@@ -127,6 +165,27 @@ def compare_next(ctx, sp, tag, a, b, state, rtol=1e-9, sigpre=""):
     return finite
 
 
+def int_twin(ctx, case, F, lay, params, values, state):
+    """Integer-valued state: the NumPy twin is given integer-dtype arrays, the function the same numbers."""
+    sp = case["spec"]
+    if not all(math.isfinite(x) for s_ in state.values() for v in s_.values() for x in v):
+        return
+    st_i = {i: {k: [float(int(x)) for x in v] for k, v in s_.items()} for i, s_ in state.items()}
+    if S.singular(sp, st_i):
+        return
+    net, els, _ = S.build(sp)
+    ic = {els[i]: {k: np.array([int(x) for x in v], dtype=np.int64) for k, v in s_.items()} for i, s_ in st_i.items()}
+    from lib.sut import NumpyEngine
+
+    r = guarded(ctx, "numpy-int-step", lambda: net.step(init_conditions=ic, engine=NumpyEngine(), **S.pars_kwargs(sp)))
+    got = guarded(ctx, "call", call, F, lay, case["compact"], st_i, params, values, case["more_out"])
+    if crashed(r) or crashed(got):
+        return
+    ctx.label("int-twin")
+    twin = {i: {k: np.asarray(v, dtype=float).reshape(-1) for k, v in el.next_states.items()} for i, el in els.items() if el.next_states}
+    compare_next(ctx, sp, case["sym"], got[0], twin, st_i, sigpre="int-arrays:")
+
+
 def check_case(case, ctx):
     sp = case["spec"]
     feats = S.features(sp)
@@ -136,6 +195,8 @@ def check_case(case, ctx):
         ctx.label("more_out")
     if case.get("sympars"):
         ctx.label("sympars")
+    if case.get("same_names"):
+        ctx.label("same-names")
     if case["opts"]:
         ctx.label("opts")
     r = guarded(ctx, "compile", compile_case, case)
@@ -151,6 +212,8 @@ def check_case(case, ctx):
         if crashed(twin) or crashed(got):
             continue
         finite &= compare_next(ctx, sp, case["sym"], got[0], twin[0], state)
+        if case.get("int_twin") and state is case["states"][0] and not case["opts"]:
+            int_twin(ctx, case, F, lay, params, values, state)
     queued = [o for o in sp["origins"] if o["kind"] != "ideal"]
     if finite and len(sp["links"]) >= 2 and queued:
         ctx.nontrivial = True
